@@ -181,7 +181,7 @@ def run(ctx):
     h = ctx.build_harness("harness.cpp")
     if not (drv and h):
         return
-    n = 300 if ctx.tier == "quick" else 6000
+    n = 300 if ctx.tier == "quick" else 3000
     if ctx.broken:
         n *= 10
     corpus = [l.strip() for l in open(ctx.pdir + "/corpus.txt") if l.strip() and not l.startswith("#")]
